@@ -64,10 +64,12 @@ def _array_jobs(tier, prop):
                 add("resize", n, s, idx=r, covers=(first and r == 0))
             for m in range(0, 3):
                 add("concat", n, s, m=m, covers=(first and m == 1))
-        for i in range(-(n + 1), n + 1):
-            add("get_set", n, n, idx=i, covers=(i == 0))
+        for s in caps(n):      # negative indices must count from the length, not from the capacity
+            for i in range(-(n + 1), n + 1):
+                add("get_set", n, s, idx=i, covers=(i == 0 and s == n))
         for i in [n, n + 1, -(n + 1), -(n + 2)]:
             add("set_bad", n, n, idx=i, covers=(i == n))
+            add("set_bad", n, 2 * n + 2, idx=i)
         add("mem_rem", n, n, covers=True)
         add("del", n, n + 1, covers=True, extra=["--memory-leak-check"])
         add("iter", n, n, covers=True)
